@@ -167,7 +167,7 @@ def evaluate_history(case):
         labels.append("has-related-calls(same-algorithm-different-call)")
     if len(algs) >= 3 and repeated and raised >= 1:
         labels.append("3-algorithms+repeat+refusal")
-    nontrivial = len(algs) >= 2 and related and (repeated or raised >= 1 or shared)
+    nontrivial = (len(algs) >= 2 or bool(case.get("sweep"))) and related and (repeated or raised >= 1 or shared)
     return Result(fails, labels, nontrivial, inconclusive, {"results_in_history": [strip(h) for h in hist][:4]}, subcases=len(calls) + 1)
 
 
@@ -282,13 +282,47 @@ def history_cases(draw):
     return {"kind": "history", "inputs": inputs, "calls": calls}
 
 
+@st.composite
+def sweep_cases(draw):
+    """One algorithm, one input object, a sweep over its parameter (number of bins / bin size) up and down again: what a cache keyed by
+    the items but not by the parameter, or an accumulator sized by the first call, gets wrong.  Bin completion gets planted inputs of
+    7-10 items on which its search really runs."""
+    alg = draw(st.sampled_from(["bc", "bc", "bc", "ffd", "bfd", "bf", "cg", "ckk", "snp", "rnp", "dp", "multifit", "kk", "greedy",
+                                "threequarters", "twothirds", "decreasing", "cbldm"]))
+    pres = draw(st.sampled_from(["list", "list", "array", "dict-str", "names"]))
+    if alg == "bc":
+        C = draw(st.sampled_from([12, 20, 30, 50]))
+        _, values, _ = draw(S.hard_packing(C, max_bins=3, max_len=10))
+        top = max(values)
+        params = [C + draw(st.integers(0, 6)), C, max(top, C - draw(st.integers(1, 4))), max(top, C - draw(st.integers(2, 8))), C]
+    elif alg in sut.PACKERS or alg in sut.COVERERS:
+        values = S.splitmix(draw(st.integers(0, 2 ** 40)), draw(st.integers(5, 12)), 1, 30)
+        top = max(values)
+        params = [top + d for d in draw(st.lists(st.integers(0, 25), min_size=3, max_size=5))]
+    else:
+        n = draw(st.integers(5, 7 if alg in ("dp",) else 8))
+        values = S.splitmix(draw(st.integers(0, 2 ** 40)), n, 0 if draw(st.booleans()) else 1, 40)
+        params = [2, 2, 2] if alg == "cbldm" else draw(st.lists(st.integers(2, 3 if alg == "dp" else 4), min_size=3, max_size=5))
+    calls = []
+    for prm in params:
+        c = {"alg": alg, "input": 0, "param": prm, "outputtype": draw(st.sampled_from(["Partition", "Partition", "Sums"]))}
+        if alg == "cg":
+            c["opts"] = {"objective": draw(st.sampled_from(S.CG_OBJECTIVES))}
+        elif alg == "dp":
+            c["opts"] = {"objective": draw(S.objective_specs(prm))}
+        elif alg == "cbldm" and draw(st.booleans()):
+            c["opts"] = {"partition_difference": draw(st.integers(1, 3))}
+        calls.append(c)
+    return {"kind": "history", "sweep": True, "inputs": [{"values": values, "pres": pres, "nseed": draw(st.integers(0, 5))}], "calls": calls}
+
+
 def valid_history(case):
     ins, calls = case.get("inputs"), case.get("calls")
     if not isinstance(ins, list) or not isinstance(calls, list) or not calls or not ins:
         return False
     for s in ins:
         v = s.get("values")
-        if not isinstance(v, list) or not (1 <= len(v) <= 8) or any((not isinstance(x, int)) or x < 0 for x in v):
+        if not isinstance(v, list) or not (1 <= len(v) <= 12) or any((not isinstance(x, int)) or x < 0 for x in v):
             return False
     for c in calls:
         if c.get("alg") not in sut.ALL_ALGS or not isinstance(c.get("input"), int) or not (0 <= c["input"] < len(ins)):
@@ -380,6 +414,10 @@ def legs(tier):
             "of bins / bin size / objective / input; same names with other values; permuted; same total). non-trivial = >= 2 different algorithms, "
             "one algorithm called in two different ways, and a repeated call or a refused call or a shared input object",
             strategy=history_cases().map(fix_history), n_quick=2000, n_thorough=40000, valid=valid, shrink=shrink, floor=0.2),
+        Leg("parameter-sweeps", evaluate,
+            "hypothesis: one algorithm on one shared input object, called with 3-5 parameter values in a row (number of bins / bin size up and "
+            "down; bin completion on planted 7-10 item inputs where its search runs), checked like a history; non-trivial as for histories",
+            strategy=sweep_cases().map(fix_history), n_quick=800, n_thorough=16000, valid=valid, shrink=shrink, floor=0.05),
     ]
 
 
